@@ -389,6 +389,78 @@ def lens_nodes(check, prog):
                                     'azimuthal' if 'phi' in nodes else 'polar'))
 
 
+QUAD_ATTRS = ('_theta_pts', '_theta_wts', '_costheta', '_sintheta', '_phi_pts',
+              '_phi_wts')
+
+
+def lens_quadrature_current(check, prog):
+    """V10: the lens wrapper integrates over the pupil of the lens angle (and with
+    the numbers of nodes) it has when the field is asked for -- the values it
+    shows, saves and is rebuilt from -- and it accepts a prior as its lens angle,
+    as the analytic theory does (the model puts a number in its place before any
+    field is computed)."""
+    q = LENS + '.raw_fields'
+    fd = prog.func(q)
+    loc = prog.loc(q, fd)
+    me = sym('self')
+    helpers = ['_compute_integral', '_transform_integral_from_lr_to_xyz',
+               '_compute_field_phase', '_compute_integrand']
+    it = Interp(prog, max_depth=1, opaque=[LENS + '.' + h for h in helpers] + [
+        MLF + 'gauss_legendre_pts_wts', MLF + 'pts_wts_for_phi_integrals'])
+    it.analyze(q)
+    first = [c for c in it.calls if c['name'].split('.')[-1] in helpers]
+    if not first:
+        check.bad('V10-quadrature-current', 'Lens.raw_fields',
+                  'no call of the integration helpers', loc)
+        return
+    recv = first[0]['args'][0]
+    stored = {}
+    t = recv
+    while t[0] == 'upd':
+        if t[2] == 'attr':
+            stored.setdefault(t[3], t[4])
+        t = t[1]
+    wants = {'_theta_pts': ('lens_angle', 'quad_npts_theta'), '_phi_pts': ('quad_npts_phi',)}
+    for attr, srcs in wants.items():
+        val = stored.get(attr)
+        okv = val is not None and all(
+            any(x == ('attr', me, sname) for x in subterms(val)) for sname in srcs)
+        check.require(okv, 'V10-quadrature-current', 'Lens.raw_fields ' + attr,
+                      'when the integral is taken, self.%s has just been computed '
+                      'from self.%s' % (attr, ', self.'.join(srcs)), loc,
+                      fail_detail='the integration helpers read self.%s as '
+                      '__init__ left it (%s): after lens.lens_angle = 0.4 the '
+                      'object shows, saves and reloads as 0.4 and computes with the '
+                      'old pupil (hologram off by 0.3; the saved-and-reloaded copy '
+                      'disagrees with the object it was saved from)' % (
+                          attr, 'not refreshed in raw_fields' if val is None
+                          else show(val)[:80]))
+    # a prior as lens angle: nothing is computed from it at construction
+    qi = LENS + '.__init__'
+    fdi = prog.func(qi)
+
+    def decide(t):
+        if t[0] == 'call' and t[1] == 'isinstance' and len(t[2]) == 2 and \
+                t[2][0] == sym('lens_angle') and 'Prior' in show(t[2][1]):
+            return True
+        return None
+    iti = Interp(prog, max_depth=2, decide=decide, opaque=[
+        MLF + 'gauss_legendre_pts_wts', MLF + 'pts_wts_for_phi_integrals'])
+    iti.analyze(qi)
+    used = [c for c in iti.calls if c['name'] == MLF + 'gauss_legendre_pts_wts'
+            and any(x in (sym('lens_angle'), ('attr', me, 'lens_angle'))
+                    for a in list(c['args']) + [v for k, v in c['kwargs']]
+                    for x in subterms(a))]
+    check.require(not used, 'V10-prior-lens-angle', 'Lens.__init__',
+                  'a lens angle given as a prior is stored, not computed with', 
+                  prog.loc(qi, fdi),
+                  fail_detail='Lens.__init__ builds the quadrature from lens_angle '
+                  'whatever it is: Lens(lens_angle=Uniform(.5, 1.2), theory=Mie()) '
+                  'raises AttributeError (TransformedPrior has no reshape), so a lens '
+                  'angle cannot be fitted with the lens wrapper while it can with '
+                  'MieLens')
+
+
 def quadrature(check, prog, canon):
     q = MLF + 'MieLensCalculator.calculate_scattered_field'
     fd = prog.func(q)
@@ -448,6 +520,7 @@ def quadrature(check, prog, canon):
     fd = prog.func(q)
     loc = prog.loc(q, fd)
     lens_nodes(check, prog)
+    lens_quadrature_current(check, prog)
     lens_prefactor_form(check, prog)
     mielens_inputs(check, prog)
     it = Interp(prog, max_depth=1, inline_new=False)
@@ -666,7 +739,8 @@ def lens_wiring(check, prog):
         detail = '_compute_integral(%s)' % ', '.join('%s=%s' % (k, show(x)[:30])
                                                      for k, x in b.items())
         if ok:
-            integ = intern(('call', ('attr', P['self'], '_compute_integral'),
+            # (the receiver as it is at the call: a refreshed quadrature shows)
+            integ = intern(('call', ('attr', ci[0]['args'][0], '_compute_integral'),
                             tuple(ci[0]['args'][1:]), ()))
             b2 = bind(LENS + '._transform_integral_from_lr_to_xyz', tr[0]['args'][1:],
                       tr[0]['kwargs'])
